@@ -129,12 +129,12 @@ def gen_case(rng, maxleaves=12):
     kind = None
     if rng.random() < 0.05:
         # a seed with a single child (outside the theorems' domain: re-seeding turns the old seed into
-        # a taxon-less leaf); correspondence only.  to_outgroup_position / randomly_reorient are left
-        # out: they can leave the new seed attached below the detached old seed (C03's subject)
+        # a taxon-less leaf); correspondence only.  to_outgroup_position / randomly_reorient are ordinary
+        # cases here since repair 1c81f78b (before it they could leave the new seed below the detached old seed)
         t = renumber({"id": 0, "taxon": None, "label": None, "len": t["len"], "kids": [t]})
         t["kids"][0]["len"] = rng.choice([None, 512, 1024]) if pattern not in ("none",) else None
         kind = rng.choice(["Reseed", "RerootNode", "RerootEdge", "Midpoint", "Ladderize", "Rotate", "Suppress",
-                           "CollapseBasal", "Reorder"])
+                           "CollapseBasal", "Reorder", "ToOutgroup", "ToOutgroup", "Reorient"])
     return {"tree": t, "rooted": rng.choice([None, True, False]), "pattern": pattern,
             "op": gen_op(rng, t, kind), "fresh": FRESH}
 
@@ -412,6 +412,14 @@ SOFT = ("Reseed", "ToOutgroup", "Ladderize", "Reorder", "Rotate", "Reorient", "S
 HARD = ("RerootNode", "RerootEdge", "Midpoint")
 
 
+def parent_of_id(t, nid):
+    for n in trees.preorder(t):
+        for k in n["kids"]:
+            if k["id"] == nid:
+                return n["id"]
+    return None
+
+
 def oracle(case, obs):
     t = case["tree"]
     op = case["op"]
@@ -465,7 +473,20 @@ def oracle(case, obs):
         return ("collapse_basal_bifurcation(set_as_unrooted_tree=False) changed is_rooted", "collapse-flag")
     # ---- specific claims ----
     if kind == "ToOutgroup":
-        if not out["kids"] or out["kids"][0]["id"] != op[1]:
+        # the outgroup is the first child of the new root; with suppress_unifurcations an outgroup that is itself
+        # a unifurcation is merged into the end of its one-child chain, which then stands in its place; when the
+        # outgroup's parent is a unifurcating seed that is suppressed too, the outgroup clade IS the new root
+        first = nodes[op[1]]
+        if op[3]:
+            while len(first["kids"]) == 1:
+                first = first["kids"][0]
+        par = parent_of_id(t, op[1])
+        root_gone = op[3] and par is not None and par == t["id"] and len(t["kids"]) == 1
+        if root_gone:
+            if out["id"] != first["id"]:
+                return ("to_outgroup_position: the seed was a unifurcation above outgroup node %d and was suppressed, "
+                        "but the outgroup clade is not the new root" % op[1], "outgroup-not-first")
+        elif not out["kids"] or out["kids"][0]["id"] != first["id"]:
             return ("to_outgroup_position: outgroup node %d is not the first child of the root" % op[1],
                     "outgroup-not-first")
     if len(t["kids"]) < 2:
@@ -616,7 +637,10 @@ def run(tier, seed, replay=None):
         "py/dv/gen_midpoint.py and proved equal to the model (Props/C07Gen.v); trusted there: the Python semantics "
         "stated in coq/Model/C07GenMidPrims.v (node references as parent-pointer paths, identity = id, the "
         "distance-matrix queries / distance_from_root / reseed_at / update_bipartitions as interface operations "
-        "given by C07Model's functions, the six-statement edge split recognised as one operation = split_edge)",
+        "given by C07Model's functions); the pointer block of the method (edge split) is one operation there, but "
+        "its statements are compiled one by one over the heap (Gen/Mutators.v Tree_reroot_at_midpoint__edge_split) "
+        "and proved equal to that operation (Props/C07Gen.v section 2); trusted: both translators cut out the same "
+        "statements (one locator, dv.gen_mutators.pointer_block)",
     ]
     if replay:
         r = json.load(open(replay))["replay"]
@@ -628,7 +652,7 @@ def run(tier, seed, replay=None):
     ok = core.proof_stage(ctx, ["Props/C07.vo"])
     # translator tie: Gen/Midpoint.v (py/dv/gen_midpoint.py, regenerated from Tree.reroot_at_midpoint on every run)
     # is proved equal to C07Model.midpoint_core; the property theorems are restated for the generated code
-    ok = core.proof_stage(ctx, ["Props/C07Gen.vo"], props_file="Props/C07Gen.v", gen_needed=("Midpoint",)) and ok
+    ok = core.proof_stage(ctx, ["Props/C07Gen.vo"], props_file="Props/C07Gen.v", gen_needed=("Midpoint", "Mutators")) and ok
     if not ok:
         core.broken_proof(ctx, search)
     cases = fixed_cases()
